@@ -120,23 +120,25 @@ func (p *c05Inner) waitBody(n int64, d time.Duration) (ok bool, got int64) {
 }
 
 type c05Case struct {
-	ID       string `json:"id"`
-	Chunks   []int  `json:"chunks"`
-	PauseMs  int    `json:"pause_ms"`
-	SSE      bool   `json:"sse"`
-	CL       bool   `json:"declared_content_length"` // body framed by Content-Length but still produced piece by piece
-	HTML     bool   `json:"html"`                    // text/html response through the agent configured with the websocket shim
-	Wrapped  bool   `json:"wrapped"`                 // through the agent with session tracking and the banner (wrapping response writers); request is a page navigation
-	PaceMs   int    `json:"pace_ms"`                 // > 0: free-running producer, one chunk every PaceMs without waiting for the observer
-	Status   int    `json:"status,omitempty"`        // response status (0: 200)
-	Group    string `json:"group,omitempty"`         // concurrent-streams group: after its first chunk every stream of the group waits until all GroupN streams have had theirs observed
-	GroupN   int    `json:"group_size,omitempty"`
-	ListBlip bool   `json:"pending_list_blip,omitempty"` // after the second chunk the proxy fails six pending-list calls in a row (a blip of a few milliseconds)
-	NoCT     bool   `json:"no_content_type,omitempty"`   // the backend declares no Content-Type at all
-	VMID     bool   `json:"vm_identity,omitempty"`       // through an agent that runs "on GCE" (fake metadata server) and stamps its calls with the VM identity token
-	Trailers bool   `json:"announced_trailers,omitempty"` // chunked response that announces trailer fields in its header and sends them after the last chunk
-	Stall    bool   `json:"stalled_upload,omitempty"`    // a large free-running response whose upload the proxy does not read until released (its own progress is not judged)
-	Class    string `json:"class"`
+	ID             string `json:"id"`
+	Chunks         []int  `json:"chunks"`
+	PauseMs        int    `json:"pause_ms"`
+	SSE            bool   `json:"sse"`
+	CL             bool   `json:"declared_content_length"` // body framed by Content-Length but still produced piece by piece
+	HTML           bool   `json:"html"`                    // text/html response through the agent configured with the websocket shim
+	Wrapped        bool   `json:"wrapped"`                 // through the agent with session tracking and the banner (wrapping response writers); request is a page navigation
+	PaceMs         int    `json:"pace_ms"`                 // > 0: free-running producer, one chunk every PaceMs without waiting for the observer
+	Status         int    `json:"status,omitempty"`        // response status (0: 200)
+	Group          string `json:"group,omitempty"`         // concurrent-streams group: after its first chunk every stream of the group waits until all GroupN streams have had theirs observed
+	GroupN         int    `json:"group_size,omitempty"`
+	ListBlip       bool   `json:"pending_list_blip,omitempty"`             // after the second chunk the proxy fails six pending-list calls in a row (a blip of a few milliseconds)
+	NoCT           bool   `json:"no_content_type,omitempty"`               // the backend declares no Content-Type at all
+	Health         bool   `json:"health_checked_busy_backend,omitempty"`   // through an agent that health-checks (1 s interval, threshold 2) a backend which answers its health path only between responses
+	FirstPostFails bool   `json:"first_upload_attempt_rejected,omitempty"` // the proxy answers the first upload attempt of this response with 503 at once; the retry is accepted
+	VMID           bool   `json:"vm_identity,omitempty"`                   // through an agent that runs "on GCE" (fake metadata server) and stamps its calls with the VM identity token
+	Trailers       bool   `json:"announced_trailers,omitempty"`            // chunked response that announces trailer fields in its header and sends them after the last chunk
+	Stall          bool   `json:"stalled_upload,omitempty"`                // a large free-running response whose upload the proxy does not read until released (its own progress is not judged)
+	Class          string `json:"class"`
 }
 
 type c05Outcome struct {
@@ -198,6 +200,7 @@ func C05(r *core.Run) {
 			}
 		}
 	}
+	var busyStreams, healthReplies int64
 	var pxFor func(c c05Case) *fakes.Proxy
 	getInner := func(id string) *c05Inner {
 		mu.Lock()
@@ -207,7 +210,49 @@ func C05(r *core.Run) {
 		}
 		return inners[id]
 	}
+	postAttempts := map[string]int{}
+	scripts0 := func(id string) int {
+		mu.Lock()
+		defer mu.Unlock()
+		if c := scripts[id]; len(c.Chunks) > 0 {
+			return c.Chunks[0]
+		}
+		return 1
+	}
 	px.OnResponse = func(id string, w http.ResponseWriter, req *http.Request) bool {
+		mu.Lock()
+		postAttempts[id]++
+		n, fp := postAttempts[id], scripts[id].FirstPostFails
+		mu.Unlock()
+		if os.Getenv("VERIF_DEBUG") != "" && fp {
+			fmt.Fprintf(os.Stderr, "DEBUG c05 upload attempt %d for %s\n", n, id)
+		}
+		if fp && n == 1 {
+			// read until the first chunk of the response has arrived, then turn the upload down the way a hop in front of
+			// the proxy does: at once, without draining the rest (a Go handler that simply returned would first wait for
+			// more of the body), and leave the connection open for a moment
+			tmp := newC05Inner()
+			first := int64(scripts0(id))
+			buf := make([]byte, 4096)
+			for {
+				if _, got := tmp.waitBody(0, 0); got >= first {
+					break
+				}
+				k, err := req.Body.Read(buf)
+				tmp.feed(buf[:k])
+				if err != nil {
+					break
+				}
+			}
+			time.Sleep(30 * time.Millisecond)
+			if hj, ok := w.(http.Hijacker); ok {
+				if c, _, err := hj.Hijack(); err == nil {
+					c.Write([]byte("HTTP/1.1 503 Service Unavailable\r\nContent-Type: text/plain\r\nContent-Length: 10\r\nConnection: close\r\n\r\ntry again\n"))
+					go func() { time.Sleep(300 * time.Millisecond); c.Close() }()
+				}
+			}
+			return true
+		}
 		in := getInner(id)
 		waitStall(id)
 		px.AcceptUpload(id, w, req, in.feed)
@@ -217,6 +262,18 @@ func C05(r *core.Run) {
 	backend, err := rawhttp.NewServer(func(req *rawhttp.Message, reqErr error, conn net.Conn, br *bufio.Reader) bool {
 		if reqErr != nil {
 			return false
+		}
+		if req.Target == "/healthz" {
+			// a backend that serves its health path only between responses: the check waits while a health-lane stream is open
+			for d := time.Now().Add(60 * time.Second); time.Now().Before(d) && atomic.LoadInt64(&busyStreams) > 0; {
+				time.Sleep(5 * time.Millisecond)
+			}
+			var w rawhttp.Builder
+			w.Line("HTTP/1.1 200 OK").Field("Content-Length", "2").End()
+			w.WriteString("ok")
+			conn.Write(w.Bytes())
+			atomic.AddInt64(&healthReplies, 1)
+			return true
 		}
 		id := strings.TrimPrefix(req.Target, "/c05/")
 		mu.Lock()
@@ -252,6 +309,10 @@ func C05(r *core.Run) {
 			outcomes[id] = &c05Outcome{c: c, missedAt: -1, completed: true}
 			mu.Unlock()
 			return true
+		}
+		if c.Health {
+			atomic.AddInt64(&busyStreams, 1)
+			defer atomic.AddInt64(&busyStreams, -1)
 		}
 		in := getInner(id)
 		out := &c05Outcome{c: c, missedAt: -1}
@@ -487,8 +548,31 @@ func C05(r *core.Run) {
 		r.Finish(1)
 	}
 	defer agent4.Kill()
+	// a fifth agent with health checks on (1 s interval, threshold 2)
+	px5, err := fakes.NewProxy()
+	if err != nil {
+		r.Broken(err.Error())
+		r.Finish(1)
+	}
+	defer px5.Close()
+	px5.ListWait = 100 * time.Millisecond
+	px5.OnResponse = func(id string, w http.ResponseWriter, req *http.Request) bool {
+		in := getInner(id)
+		waitStall(id)
+		px5.AcceptUpload(id, w, req, in.feed)
+		in.finish()
+		return true
+	}
+	agent5, err := startAgent(r, agentBin, "agent-health", md, px5.URL(), backend.Addr(), "b5h", "--health-check-path=/healthz", "--health-check-interval-seconds=1", "--health-check-unhealthy-threshold=2")
+	if err != nil {
+		r.Broken(err.Error())
+		r.Finish(1)
+	}
+	defer agent5.Kill()
 	pxFor = func(c c05Case) *fakes.Proxy {
 		switch {
+		case c.Health:
+			return px5
 		case c.VMID:
 			return px4
 		case c.HTML:
@@ -500,10 +584,10 @@ func C05(r *core.Run) {
 	}
 
 	// the progress bounds below are for chunks, not for the start-up of three agent processes on a busy machine
-	for d := time.Now().Add(60 * time.Second); time.Now().Before(d) && (px.Lists() == 0 || px2.Lists() == 0 || px3.Lists() == 0 || px4.Lists() == 0); {
+	for d := time.Now().Add(60 * time.Second); time.Now().Before(d) && (px.Lists() == 0 || px2.Lists() == 0 || px3.Lists() == 0 || px4.Lists() == 0 || px5.Lists() == 0); {
 		time.Sleep(10 * time.Millisecond)
 	}
-	if px.Lists() == 0 || px2.Lists() == 0 || px3.Lists() == 0 || px4.Lists() == 0 {
+	if px.Lists() == 0 || px2.Lists() == 0 || px3.Lists() == 0 || px4.Lists() == 0 || px5.Lists() == 0 {
 		r.Broken("C05: an agent made no pending-list call within 60 s of its start")
 		r.Finish(1)
 	}
@@ -605,6 +689,15 @@ func C05(r *core.Run) {
 	cases = append(cases,
 		c05Case{ID: fmt.Sprintf("s%dblip", r.Seed), Chunks: []int{100, 100, 100, 4097, 100, 1}, ListBlip: true, PauseMs: 20, Class: "fixed|pending-list-blip-mid-stream"},
 		c05Case{ID: fmt.Sprintf("s%dquiet", r.Seed), Chunks: []int{100, 100}, PauseMs: 11500, SSE: true, Class: "fixed|backend-silent-11.5s-mid-stream"})
+	// fixed cases: a 5 s stream from a backend that cannot answer its health path meanwhile (agent with health checks on); a
+	// response whose first upload attempt the proxy turns down at once
+	{
+		hc := c05Case{ID: fmt.Sprintf("s%dbusy", r.Seed), Chunks: []int{100, 100, 100, 100, 100, 100, 100}, PauseMs: 800, Health: true, Class: "fixed|health-checked-backend-busy-for-5s"}
+		cases = append(cases, hc)
+		for k, ch := range [][]int{{100, 100, 100}, {1, 2000, 100, 4097}, {300, 70000}} {
+			cases = append(cases, c05Case{ID: fmt.Sprintf("s%dfp%d", r.Seed, k), Chunks: ch, PauseMs: k * 10, SSE: k == 1, FirstPostFails: true, Class: fmt.Sprintf("fixed|first-upload-attempt-rejected|n=%d", len(ch))})
+		}
+	}
 	run := func(cs []c05Case, T time.Duration, par int) {
 		sem := make(chan struct{}, par)
 		var wg sync.WaitGroup
@@ -867,11 +960,13 @@ func C05(r *core.Run) {
 	r.Set("body_bytes_streamed", total)
 	<-h2Done
 	r.Set("uploads_stamped_with_vm_identity", atomic.LoadInt64(&vmStamped))
-	judgeProcs(r, true, agent, agent2, agent3, agent4)
+	r.Set("health_checks_answered_by_the_busy_backend", atomic.LoadInt64(&healthReplies))
+	judgeProcs(r, true, agent, agent2, agent3, agent4, agent5)
 	agent.Kill()
 	agent2.Kill()
 	agent3.Kill()
 	agent4.Kill()
+	agent5.Kill()
 	r.JudgeRaces(core.ParseRaceLogs(filepath.Join(r.WorkDir, "race-")))
 	r.Finish(r.Pick(30, 400))
 }
